@@ -20,7 +20,9 @@ class JavaCompiler(BaseCompiler):
         return ['javac', '-version']
 
     def get_compiler_cmd(self):
-        return ['javac', '-nowarn', self.input_name]
+        # javac stops printing diagnostics after 100 errors by default; in a
+        # batch the programs whose errors are cut off would look compiled.
+        return ['javac', '-nowarn', '-Xmaxerrs', '100000', self.input_name]
 
     def get_filename(self, match):
         return match[0]
